@@ -182,4 +182,98 @@ theorem C09_xml_statistics_are_model_statistics (alg : Alg) (np : NetProblem ℝ
       simp only [Nat.add_sub_cancel]
       rfl
 
+/-- **`<major>`, `<minor>`, `<alpha>`** are the three components of the regenerated `std_error_ellipse` on the 2×2 block
+    `qxx(iy,iy), qxx(iy,ix), qxx(ix,ix)` of the answer and on the value of `m_0()`, and that triple IS the
+    eigen-decomposition of the block (`IsEigenEllipse`, `C09_ellipse_spec`): semi-axes `m0·√λ₁ ≥ m0·√λ₂`, bearing of the
+    major axis in `[0, π)` -/
+theorem C09_xml_ellipse_is_model_ellipse (alg : Alg) (np : NetProblem ℝ)
+    (hdim : (dimsN np).sum = np.m) (hrows : RowsOK (toProblem np)) (hsapr : 0 < np.m0)
+    (P : Matrix (Fin (toProblem np).m) (Fin (toProblem np).m) ℝ) (hP : (toProblem np).C * P = 1)
+    (hreg : Env.RegListOK (toProblem np)) {τ : ℝ}
+    (hg : InputGap alg (toProblem np).A P (toProblem np).S τ)
+    (a : NetAnswer ℝ) (h : netSolve alg np = .ok a) (c : Xml.Cfg) (ix iy : Fin (toProblem np).n) :
+    ∃ m0 cyy cyx cxx : ℝ, a.m0 np c.act = .ok m0 ∧ 0 ≤ m0 ∧
+      a.qxx (iy.val + 1) (iy.val + 1) = .ok cyy ∧ a.qxx (iy.val + 1) (ix.val + 1) = .ok cyx ∧
+      a.qxx (ix.val + 1) (ix.val + 1) = .ok cxx ∧
+      Xml.value np a c .ellMajor 0 (ix.val + 1) (iy.val + 1) = .ok (StatsGen.stdErrorEllipse cyy cyx cxx m0).1 ∧
+      Xml.value np a c .ellMinor 0 (ix.val + 1) (iy.val + 1) = .ok (StatsGen.stdErrorEllipse cyy cyx cxx m0).2.1 ∧
+      Xml.value np a c .ellAlpha 0 (ix.val + 1) (iy.val + 1) = .ok (StatsGen.stdErrorEllipse cyy cyx cxx m0).2.2 ∧
+      IsEigenEllipse cxx cyx cyy m0 (StatsGen.stdErrorEllipse cyy cyx cxx m0) := by
+  have key : 0 ≤ a.pvv ∧ ∀ m0 : ℝ, 0 ≤ m0 → ∃ cyy cyx cxx : ℝ,
+      a.qxx (iy.val + 1) (iy.val + 1) = .ok cyy ∧ a.qxx (iy.val + 1) (ix.val + 1) = .ok cyx ∧
+      a.qxx (ix.val + 1) (ix.val + 1) = .ok cxx ∧
+      IsEigenEllipse cxx cyx cyy m0 (StatsGen.stdErrorEllipse cyy cyx cxx m0) := by
+    have T := C09_ellipse_of_net alg np
+    have T2 := C09_net_side_conditions alg np
+    revert T T2 hdim hrows P hP hreg hg a h ix iy
+    rw [scalarReal_eq_fieldScalar]
+    intro hdim hrows P hP hreg hg a h ix iy T T2
+    have hm0 : np.m0 ≠ 0 := hsapr.ne'
+    obtain ⟨hPc, hPe⟩ := weight_unscale_field np hm0 hdim P hP
+    rw [← hPe] at hg
+    have hyp := Props.C01.C01_net_solverhyp_of_inputgap np hdim hrows hm0 _ hPc hreg alg hg
+    refine ⟨(T2 hdim hrows hm0 P hP hyp a h).1, fun m0 hm => ?_⟩
+    obtain ⟨cyy, cyx, cxx, r1, r2, r3, -, -, -, -, he⟩ := T hdim hrows P hP hyp a h ix iy m0 hm
+    exact ⟨cyy, cyx, cxx, r1, r2, r3, he⟩
+  obtain ⟨hphi, hk⟩ := key
+  obtain ⟨m0, hm, ha, hb, hc, -, -⟩ := C09_m0_guard_full c.act np.m0 a.pvv 1 (a.dof np) hphi one_pos
+  have hnn : 0 ≤ m0 := by
+    cases hact : c.act with
+    | apriori => rw [ha hact]; exact hsapr.le
+    | aposteriori =>
+      by_cases hd : 0 < a.dof np
+      · exact (hb hact hd).2
+      · rw [hc hact (not_lt.mp hd)]
+  obtain ⟨cyy, cyx, cxx, r1, r2, r3, he⟩ := hk m0 hnn
+  have hm' : a.m0 np c.act = .ok m0 := hm
+  have hm0' : Xml.ofStr (a.m0 np c.act) = .ok m0 := by rw [hm']; rfl
+  refine ⟨m0, cyy, cyx, cxx, hm', hnn, r1, r2, r3, ?_, ?_, ?_, he⟩ <;>
+  · unfold Xml.value
+    simp only [hm0', r1, r2, r3]
+    rfl
+
+/-! ## non-vacuity -/
+
+section examples
+open Gama.Ls.Ex
+
+/-- the statistic sites exist: C12's table has 26 of them, C09's resolved table has the same 26 rows -/
+example : (Gen.XmlSites.sites.filter Xml.isStat).length = 26 ∧ StatsXmlSites.sites.length = 26 := by decide +kernel
+
+/-- one row read off the regenerated table: `<qrr>` streams the local `qrr`, defined as `netinfo->wcoef_res(i)`, which is
+    classified as the residual cofactor `StatsGen.wcoefRes`, not rescaled -/
+example : (⟨"qrr", "observations", "qrr", "netinfo->wcoef_res(i)", false⟩ : StatsXmlSites.StatSite) ∈ StatsXmlSites.sites ∧
+    Xml.classify "netinfo->wcoef_res(i)" = some .qrr := by decide +kernel
+
+/-- sensitivity of the table check: a writer that printed the WEIGHT under `<qrr>` is not accepted -/
+example : Xml.rowOK ⟨"qrr", "observations", "qrr", "netinfo->weight_obs(i)", false⟩ = false := by decide +kernel
+
+/-- … nor one that forgot the `fabs` of `<std-residual>`, nor one that rescaled `<qrr>` by the angular unit -/
+example : Xml.rowOK ⟨"std-residual", "observations", "no", "netinfo->studentized_residual(i)", false⟩ = false ∧
+    Xml.rowOK ⟨"qrr", "observations", "qrr", "netinfo->wcoef_res(i)", true⟩ = false := by decide +kernel
+
+/-- `C09_xml_statistics_are_model_statistics` APPLIED over ℝ to `Ex.npR` (correlated cluster with an excluded
+    observation, defect 1; envelope, cholesky, gso; both `sigma-act` modes; every unknown and observation): every
+    hypothesis discharged, the model answers, and `<degrees-of-freedom>` = 3 − 2 + 1 = 2 -/
+example (alg : Alg) (halg : alg ≠ .svd) (c : Xml.Cfg) (i : Fin (toProblem npR).n) (k : Fin (toProblem npR).m) :
+    ∃ (a : NetAnswer ℝ) (qv : ℝ), netSolve alg npR = .ok a ∧ Xml.value npR a c .dof 0 0 0 = .ok 2 ∧
+      Xml.value npR a c .qrr (k.val + 1) 0 0 = .ok qv ∧ 0 ≤ qv := by
+  have T := C09_xml_statistics_are_model_statistics alg npR
+  have G := Props.C01.C01_net_inputgap_witness alg halg
+  have A := Props.C01.C01_net_answers_witness alg halg
+  revert T G A i k
+  rw [scalarReal_eq_fieldScalar]
+  intro i k T G A
+  obtain ⟨a, ha, hd⟩ := A
+  obtain ⟨-, t1, -, -, -, -, m0, qii, bkk, sL, qv, -, -, -, -, -, -, -, -, -, -, -, -, q1, q2, -⟩ :=
+    T (npW_dims 2 [1]) (npW_rows 2 [1]) (by show (0 : ℝ) < 2; norm_num) _
+      (weight_of_sigma npR (npW_dims 2 [1]) (by show (2 : ℝ) ≠ 0; norm_num) PcN npR_sigma_inv)
+      (npW_regListOK 2 [1] (Or.inl rfl)) G a ha c i k
+  refine ⟨a, qv, ha, ?_, q1, q2⟩
+  rw [t1, hd]
+  show Except.ok (((3 : ℤ) - 2 + (1 : ℕ) : ℤ) : ℝ) = Except.ok 2
+  norm_num
+
+end examples
+
 end Gama.Props.C09
